@@ -313,6 +313,36 @@ func genConsts() string {
 		}
 		fmt.Fprintf(&sb, "def utils_hopHeaders : List Bytes := %s\n", leanBytesList(mapKeys(env, "hopHeaders", rel, true)))
 	}
+	// server: capacities of the channels created in struct literals
+	{
+		rel := "server/server.go"
+		f := parseFile(rel)
+		for _, want := range []struct{ fn, field, lean string }{{"newProxy", "requestIDs", "server_requestIDsCap"}, {"newPendingRequest", "respChan", "server_respChanCap"}} {
+			fd := mustFunc(f, rel, "", want.fn)
+			capv := int64(-1)
+			ast.Inspect(fd, func(n ast.Node) bool {
+				kv, ok := n.(*ast.KeyValueExpr)
+				if !ok || src(kv.Key) != want.field {
+					return true
+				}
+				if ce, ok := kv.Value.(*ast.CallExpr); ok && src(ce.Fun) == "make" {
+					capv = 0
+					if len(ce.Args) == 2 {
+						v, ok := evalInt(constEnv{}, ce.Args[1])
+						if !ok {
+							fail("%s: capacity of %s is not a literal", rel, want.field)
+						}
+						capv = v
+					}
+				}
+				return true
+			})
+			if capv < 0 {
+				fail("%s: %s is no longer created with make(chan ...) in %s", rel, want.field, want.fn)
+			}
+			emitInt(want.lean, capv, rel+" "+want.fn)
+		}
+	}
 	// agent
 	{
 		rel := "agent/agent.go"
